@@ -46,17 +46,17 @@ theorem C12_label_ignores_message (macros : Option (List (Bytes × Bytes))) (ml 
     (matchInterpolate macros ml i mh msgs1).isSome = (matchInterpolate macros ml i mh msgs2).isSome :=
   Proofs.label_interpolation_ignores_message macros ml i mh hty msgs1 msgs2
 
-/-- The existing labels as `match_interpolate` reads them. -/
+/-- The existing labels as `match_interpolate` copies them (line breaks of a decoded value become a space). -/
 def C12_existingLabels (m : Msg) : Bytes :=
   match getHeader m (ofString "X-Label") with
   | none => []
-  | some ls => (ls.intersperse [32]).flatten
+  | some ls => ((ls.map labelSafe).intersperse [32]).flatten
 
 /-- (audit au2) What a `label "s"` entry sets: the existing `X-Label` values AS `message_get_header` RETURNS THEM
-(all occurrences, each unfolded and RFC 2047-decoded, joined by one space), one space, and the interpolation `v` of
-the configured string - the existing text is appended to, never interpolated; the whole is cut at its first NUL.
-Because the DECODED text is written back, an encoded newline in an existing label ends up raw in the header block:
-`C08_label_value_from_message_breaks_rewrite`. -/
+(all occurrences, each unfolded and RFC 2047-decoded; since /repo 71eba6c with every `\n` / `\r` of a decoded value
+turned into a space, `Model.labelSafe`), joined by one space, one space, and the interpolation `v` of the configured
+string - the existing text is appended to, never interpolated; the whole is cut at its first NUL.  That the value is
+safe to write back is `C08_label_value_safe` / `C08_label_rewrite_preserves`. -/
 theorem C12_label_value (macros : Option (List (Bytes × Bytes))) (ml : MatchList) (i : Nat) (mh : Match)
     (msgs : Nat → Msg) (hty : mh.ty = .label) (s v : Bytes) (hs : mh.strings = [s])
     (hv : interpolate (ml.take i) macros s = some v) :
